@@ -30,7 +30,7 @@ func (vc *VC) resultOf(sig *types.Signature, mk func(i int, t types.Type) *Val) 
 func (vc *VC) freshResult(sig *types.Signature, hint string) *Val {
 	return vc.resultOf(sig, func(i int, t types.Type) *Val {
 		v := &Val{T: vc.fresh(fmt.Sprintf("%s_r%d", hint, i), vc.sortOf(t)), Ty: t}
-		vc.assume(vc.rangeFact(v.T, t))
+		vc.valueFacts(v.T, t)
 		return v
 	})
 }
@@ -42,16 +42,15 @@ func (vc *VC) havocAll(why string) {
 	}
 	vc.nfresh++
 	ep := fmt.Sprintf("e%d", vc.nfresh)
-	oldAlloc := vc.get("alloc", "(Array Int Bool)")
+	oldAlloc := vc.get("alloc", "Int")
 	for k := range vc.st.m {
 		if heapLike(k) {
 			delete(vc.st.m, k)
 		}
 	}
 	vc.st.epoch = ep
-	vc.havocStorage("alloc", "(Array Int Bool)")
-	vc.emit("(assert (forall ((r Int)) (=> (select %s r) (select %s r))))", oldAlloc, vc.st.m["alloc"])
-	vc.emit("(assert (not (select %s 0)))", vc.st.m["alloc"])
+	vc.havocStorage("alloc", "Int")
+	vc.emit("(assert (>= %s %s))", vc.st.m["alloc"], oldAlloc)
 }
 
 func calleeShort(name string) string {
@@ -438,11 +437,17 @@ func (vc *VC) applyContractX(fr *Frame, spec *FuncSpec, name string, sig *types.
 			vc.havocLoc(m)
 		}
 	}
+	// the callee may allocate
+	{
+		oldAlloc := vc.get("alloc", "Int")
+		vc.havocStorage("alloc", "Int")
+		vc.emit("(assert (>= %s %s))", vc.st.m["alloc"], oldAlloc)
+	}
 	// results
 	rnames := vc.resultNames(spec, sig)
 	res := vc.resultOf(sig, func(i int, t types.Type) *Val {
 		v := &Val{T: vc.fresh(sanitize(lastSeg(name))+"_"+rnames[i], vc.sortOf(t)), Ty: t}
-		vc.assume(vc.rangeFact(v.T, t))
+		vc.valueFacts(v.T, t)
 		return v
 	})
 	post := &Env{vars: map[string]*Val{}, st: vc.st, old: pre, pkg: spec.Pkg, imports: spec.Imports}
